@@ -95,13 +95,17 @@ fn reparse<K: Kind>(text: &str, obs1: &str) -> (String, String) {
 }
 
 fn op_parse<K: Kind>(text: &str, layout: Layout) -> String {
-    let v = match K::parse(text) {
-        Ok(v) => v,
-        Err(()) => return err(),
-    };
-    let o1 = obs::to_s(|o| K::obs(&v, o));
+    match K::parse(text) {
+        Ok(v) => value_response::<K>(&v, layout),
+        Err(()) => err(),
+    }
+}
+
+/// `ok <obs> T R [V]` / `ok <obs> T V R` for an already constructed value.
+pub(crate) fn value_response<'a, K: Kind>(v: &K::Out<'a>, layout: Layout) -> String {
+    let o1 = obs::to_s(|o| K::obs(v, o));
     let t1 = v.to_string();
-    let ver = K::version(&v);
+    let ver = K::version(v);
     let (r, _f) = reparse::<K>(&t1, &o1);
 
     let mut out = String::from("ok ");
@@ -265,7 +269,7 @@ fn push_a(o: &mut String, p: &MasterPlaylist<'_>) {
 }
 
 /// `ok <media> T V D` (+ ` R F` when `roundtrip`); returns also nothing else.
-fn media_response(p: &MediaPlaylist<'_>, roundtrip: bool) -> String {
+pub(crate) fn media_response(p: &MediaPlaylist<'_>, roundtrip: bool) -> String {
     let o1 = obs::to_s(|o| obs::media(o, p));
     let t1 = p.to_string();
     let v = obs::pversion_u8(p.required_version());
@@ -284,7 +288,7 @@ fn media_response(p: &MediaPlaylist<'_>, roundtrip: bool) -> String {
     out
 }
 
-fn master_response(p: &MasterPlaylist<'_>, roundtrip: bool) -> String {
+pub(crate) fn master_response(p: &MasterPlaylist<'_>, roundtrip: bool) -> String {
     let o1 = obs::to_s(|o| obs::master(o, p));
     let t1 = p.to_string();
     let v = obs::pversion_u8(p.required_version());
@@ -556,6 +560,8 @@ pub fn dispatch(op: &str, payload: &str, args: &[&str]) -> String {
         "f32:Float" => return op_f32_float(payload),
         "f32:UFloat" => return op_f32_ufloat(payload),
         "time" => return op_time(payload, args),
+        "build_media" => return crate::builders::op_build_media(payload),
+        "build_master" => return crate::builders::op_build_master(payload),
         _ => {}
     }
 
@@ -564,6 +570,9 @@ pub fn dispatch(op: &str, payload: &str, args: &[&str]) -> String {
     }
     if op.starts_with("tag:") {
         return with_kind!(op, op_parse, (payload, Layout::Tag), bad());
+    }
+    if let Some(what) = op.strip_prefix("build_tag:") {
+        return crate::builders::op_build_tag(what, payload);
     }
     if let Some(what) = op.strip_prefix("owned:") {
         return with_own_kind!(what, op_owned, (payload), bad());
